@@ -7,7 +7,6 @@ Not decided: 2*pi wrap to rounding, gimbal-lock neighbourhood."""
 from .. import ewit
 
 LEVEL = 'other'
-INCOMPLETE = True   # rule set still being armed: not claimed in MANIFEST.json yet
 UNITS = ['src/transform/SmartRotation3D.cpp', 'verif:inst_math.cpp']
 ENGINES = 'E-WIT + E-ALG + E-SIB + E-INT over romea-facts'
 TECHNIQUE = 'compile-time instantiation witnesses (clang -fsyntax-only); exact algebra on the extracted rotation/coordinate formulas; range typing of the angle normalisers'
